@@ -52,7 +52,11 @@ func verifyFunction(fn *ssa.Function) (res *FuncResult) {
 	for _, p := range fn.Params {
 		v := Var("p$"+sanitize(p.Name()), sortOf(p.Type()))
 		args = append(args, v)
-		ex.assume(ex.validVal(v, p.Type(), false))
+		if sp != nil && sp.MayGlobal[p.Name()] {
+			ex.assume(Or(ex.validVal(v, p.Type(), false), ex.validVal(v, p.Type(), true)))
+		} else {
+			ex.assume(ex.validVal(v, p.Type(), false))
+		}
 	}
 	var fvs []*Term
 	for _, fv := range fn.FreeVars {
@@ -85,6 +89,12 @@ func verifyFunction(fn *ssa.Function) (res *FuncResult) {
 				fatal("contract error in modifies of %s: %s", res.Name, err)
 			}
 		}
+		for _, gs := range sp.GhostSets {
+			_, err := ex.safeEval(env, func() *Term { ex.frameLocs = append(ex.frameLocs, env.locsOf(gs.Loc)...); return True })
+			if err != "" {
+				fatal("contract error in ghostset of %s: %s", res.Name, err)
+			}
+		}
 	}
 	vals, out, retReach := ex.run(fn, args, fvs, pre, True, "", 0)
 	if sp != nil && retReach != False {
@@ -93,6 +103,22 @@ func verifyFunction(fn *ssa.Function) (res *FuncResult) {
 		post.assume = func(t *Term) { ex.assume(Implies(retReach, t)) }
 		post.bindResults(fn.Signature, sp, vals)
 		ex.topFrame.curState = out
+		// ghost assignments at exit
+		for _, gs := range sp.GhostSets {
+			var locs []Loc
+			var v *Term
+			_, err := ex.safeEval(post, func() *Term {
+				locs = post.locsOf(gs.Loc)
+				cv := post.eval(gs.Val)
+				v = post.toGhostSort(cv, ghostSortOfArr(locs[0].arr))
+				return True
+			})
+			if err != "" {
+				fatal("contract error in ghostset of %s: %s", res.Name, err)
+			}
+			srt := memArrays[locs[0].arr]
+			out.set(locs[0].arr, Store(out.get(locs[0].arr, srt), locs[0].addr, v))
+		}
 		for _, c := range sp.Ensures {
 			t, err := ex.safeEval(post, func() *Term { return post.boolOf(c.E) })
 			if err != "" {
@@ -107,6 +133,28 @@ func verifyFunction(fn *ssa.Function) (res *FuncResult) {
 				o.Props = []string{"C13"}
 			}
 			ex.oblige(o)
+		}
+		// preserved cells
+		for _, pc := range sp.Preserves {
+			var locs []Loc
+			_, err := ex.safeEval(env, func() *Term { locs = env.locsOf(pc.E); return True })
+			if err != "" {
+				fatal("contract error in preserves of %s: %s", res.Name, err)
+			}
+			var cs []*Term
+			for _, l := range locs {
+				srt := memArrays[l.arr]
+				cs = append(cs, Eq(Select(out.get(l.arr, srt), l.addr), Select(pre.get(l.arr, srt), l.addr)))
+			}
+			name := ""
+			if len(pc.Labels) > 0 {
+				name = pc.Labels[0] + "[" + pc.Src + "]"
+			}
+			props := labelProps(pc.Labels)
+			if len(props) == 0 {
+				props = sp.props()
+			}
+			ex.oblige(&Obl{Fn: res.Name, Kind: "ensures", Guard: retReach, Goal: And(cs...), Props: props, Snip: "preserves " + pc.Src, Name: name})
 		}
 		// frame
 		if !sp.ModAny {
@@ -229,4 +277,8 @@ func (ex *Exec) heapValidityAxioms() []*Term {
 		}
 	}
 	return out
+}
+
+func ghostSortOfArr(arr string) string {
+	return specs.GhostFields[strings.TrimPrefix(arr, "G$")]
 }
